@@ -55,7 +55,10 @@ EInit == dir = Inputs /\ hist = <<>> /\ intact = TRUE
 
 Matches(sel, g) == CASE sel = "all" -> TRUE [] sel = "moduli" -> Rules[g[2]].kind = "ij" [] sel = "none" -> FALSE
 \* extract / extract-geotherm read the pressure-base tables of the variables they are asked for: enabled only when they exist
-Enabled(c) == CASE c.name \in {"extract", "geotherm"} -> \E g \in dir : g[1] = "table" /\ g[3] = "tp"
+\* (they look for ANY file named <variable>_tp_*: once `plot` has put a picture next to a table, that may be the picture, and the
+\*  command then fails on it - an observed weakness of the package, outside the listed properties.  The model therefore lets them
+\*  run only on a variable whose table has no picture yet.)
+Enabled(c) == CASE c.name \in {"extract", "geotherm"} -> \E g \in dir : g[1] = "table" /\ g[3] = "tp" /\ <<"png", g>> \notin dir
                 [] OTHER -> TRUE
 Creates(c) == CASE c.name = "run"   -> TablesOf(c.out)
                 [] c.name = "plot"  -> {<<"png", g>> : g \in {h \in dir : h[1] = "table" /\ Matches(c.sel, h)}}
